@@ -414,10 +414,22 @@ func C18(t Tier) int {
 	// silently different key
 	good := sdk.AccAddress(bytes.Repeat([]byte{0xab}, 20))
 	typedDecoders := map[string]func([][]byte) (compkey.CompositeKey, error){
-		"owner":  func(b [][]byte) (compkey.CompositeKey, error) { var k aoltypes.OwnerCompositeKey; return &k, k.FromByteSlices(b) },
-		"topic":  func(b [][]byte) (compkey.CompositeKey, error) { var k aoltypes.TopicCompositeKey; return &k, k.FromByteSlices(b) },
-		"writer": func(b [][]byte) (compkey.CompositeKey, error) { var k aoltypes.WriterCompositeKey; return &k, k.FromByteSlices(b) },
-		"record": func(b [][]byte) (compkey.CompositeKey, error) { var k aoltypes.RecordCompositeKey; return &k, k.FromByteSlices(b) },
+		"owner": func(b [][]byte) (compkey.CompositeKey, error) {
+			var k aoltypes.OwnerCompositeKey
+			return &k, k.FromByteSlices(b)
+		},
+		"topic": func(b [][]byte) (compkey.CompositeKey, error) {
+			var k aoltypes.TopicCompositeKey
+			return &k, k.FromByteSlices(b)
+		},
+		"writer": func(b [][]byte) (compkey.CompositeKey, error) {
+			var k aoltypes.WriterCompositeKey
+			return &k, k.FromByteSlices(b)
+		},
+		"record": func(b [][]byte) (compkey.CompositeKey, error) {
+			var k aoltypes.RecordCompositeKey
+			return &k, k.FromByteSlices(b)
+		},
 	}
 	partMenu := [][]byte{{}, {0x01}, good, bytes.Repeat([]byte{0x02}, 255), bytes.Repeat([]byte{0x03}, 256)}
 	for l := 0; l <= 10; l++ {
